@@ -7,8 +7,8 @@ from ..fprog import gen_extract as GEN
 ID = 'C33'
 LEVEL = 'exploration'
 TECHNIQUE = ('differential execution (gfortran) of generated kernels with !$loki outline regions and internal procedures vs the '
-             'same programs after outline_pragma_regions / extract_internal_procedures / ExtractTransformation, with a '
-             'feature-ablation reducer that names the necessary generated feature')
+             'same programs after outline_pragma_regions / extract_internal_procedures / ExtractTransformation; confirmed root '
+             'causes are excluded by construction while a compile-only probe shows them present, failures are classified from the IR')
 RULE = ('a case is a spec (entry point, options, ~50 feature flags, sizes, choice streams) expanded from one Hypothesis-drawn '
         'integer; build(spec) deterministically generates modules tmod (derived type, PARAMETER), hmod (callees) and a kernel '
         '(module procedure, or free-standing for ExtractTransformation.transform_file) with 1-2 !$loki outline regions '
@@ -20,33 +20,27 @@ RULE = ('a case is a spec (entry point, options, ~50 feature flags, sizes, choic
         'as ExtractTransformation does; original and transformed program run on 4 input vectors with the same driver. '
         'non-trivial = IR dump changed AND a region / internal-procedure call that the entry point rewrites executes '
         'unconditionally AND outputs differ across input vectors; distinct by hash of the spec. Failing specs are reduced by '
-        'feature ablation; the signature names entry point, failure class and the necessary flags.')
+        'feature ablation; the signature names the root cause recognised in the transformed IR (fixed order), else the '
+        'transformation kind and the failure class; the necessary flags go to the detail.')
 ASSUMPTIONS = ['gfortran 12 -O0 with -fcheck=bounds,do -ftrapv -ffpe-trap is the reference semantics',
                'programs whose ORIGINAL traps at run time are excluded as undefined behaviour',
                'the driver program never passes through loki',
                'in/inout pragma overrides are only generated when they are correct for the region (a read-only variable as in, '
                'any variable of the region as inout)',
                'regions contain no RETURN/EXIT/CYCLE that leaves the region and do not call internal procedures',
-               'host variables accessed by an internal procedure are not passed as actual arguments to it (no aliasing)']
+               'host variables accessed by an internal procedure are not passed as actual arguments to it (no aliasing)',
+               'an exception raised by loki on these (valid) programs is a violation: the statement promises transformed code',
+               'the trigger of a listed root cause is generated only while its compile-only probe (PROBES) shows the defect '
+               'absent from the tree under test; the committed replay files keep the triggers']
 SHARDS = {'quick': 8, 'thorough': 16}
 BUDGET = {'quick': 80, 'thorough': 1500}
 
-EXCLUDE_RULES = [
-]
 OPT_BASELINE = {'extract_internals': False, 'outline_regions': False}
 EP_OPTS = {'trafo_module': ('extract_internals', 'outline_regions'), 'trafo_file': ('extract_internals', 'outline_regions')}
 
 
-def apply_ep(spec, rendered, meta):
-    from ..project.harness import quiet
-    quiet()
-    from loki import Sourcefile
-    from loki.frontend import FP
+def _transform(sf, ep, o):
     from loki.transformations import extract as le
-    from .. import irdump
-    sf = Sourcefile.from_source(rendered[0]['text'], frontend=FP)
-    before = json.dumps(irdump.dump_sourcefile(sf), sort_keys=True, default=str)
-    ep, o = spec['ep'], spec.get('opts', {})
     if ep == 'outline':
         mod = sf['kmod']
         mod.contains.append(le.outline_pragma_regions(mod['kernel']))
@@ -61,6 +55,21 @@ def apply_ep(spec, rendered, meta):
                                  outline_regions=bool(o.get('outline_regions'))).apply(sf)
     else:
         raise ValueError(ep)
+
+
+def _parse(text):
+    from ..project.harness import quiet
+    quiet()
+    from loki import Sourcefile
+    from loki.frontend import FP
+    return Sourcefile.from_source(text, frontend=FP)
+
+
+def apply_ep(spec, rendered, meta):
+    from .. import irdump
+    sf = _parse(rendered[0]['text'])
+    before = json.dumps(irdump.dump_sourcefile(sf), sort_keys=True, default=str)
+    _transform(sf, spec['ep'], spec.get('opts', {}))
     after = json.dumps(irdump.dump_sourcefile(sf), sort_keys=True, default=str)
     return [(rendered[0]['name'], sf.to_fortran() + '\n')], before != after
 
@@ -77,11 +86,285 @@ def executes(spec, case):
     return False
 
 
-X = GI.XCheck(ID, GEN, apply_ep, executes, EP_OPTS, OPT_BASELINE, EXCLUDE_RULES)
+# --------------------------------------------------------------------------- listed root causes
+# Each listed root cause (known_findings.d/C33.txt) has
+#   * a PROBE: a fixed small program + entry point; the defect is present in the tree under test iff loki raises or the
+#     transformed text does not compile (compile only, ~0.2 s). While it is present, the generator trigger is switched off
+#     (counted with ctx.exclude); once loki is fixed the probe passes and the trigger is generated again.
+#   * a recogniser in diagnose(): decides from the IR before/after the transformation (never from compiler messages)
+#     whether a failing case shows that root cause. Consulted in the fixed order ROOT_CAUSES.
+ROOT_CAUSES = ['extract:derived-type-imported-by-enclosing-module', 'extract:host-array-referenced-in-several-forms',
+               'extract:host-parameter-becomes-dummy-argument', 'outline:array-extent-variable-not-passed',
+               'transform_file:keyword-arguments-to-external-procedure', 'transform_file:extracted-function-undeclared-in-caller']
+
+_HEAD = """module tmod
+  implicit none
+  type :: tp
+    integer :: ci
+  end type tp
+end module tmod
+"""
+PROBES = {
+    'extract:derived-type-imported-by-enclosing-module': ('extract', {}, _HEAD + """module kmod
+  use tmod, only: tp
+  implicit none
+contains
+  subroutine kernel(n, y)
+    integer, intent(in) :: n
+    integer, intent(inout) :: y
+    type(tp) :: ld
+    ld%ci = n
+    call isub(y)
+  contains
+    subroutine isub(r)
+      integer, intent(inout) :: r
+      r = r + ld%ci
+    end subroutine isub
+  end subroutine kernel
+end module kmod
+"""),
+    'extract:host-array-referenced-in-several-forms': ('extract', {}, """module kmod
+  implicit none
+contains
+  subroutine kernel(n, za, y)
+    integer, intent(in) :: n
+    real(kind=8), intent(inout) :: za(3)
+    real(kind=8), intent(inout) :: y
+    call isub(y)
+  contains
+    subroutine isub(r)
+      real(kind=8), intent(inout) :: r
+      r = r + za(1)
+      za(2) = r
+    end subroutine isub
+  end subroutine kernel
+end module kmod
+"""),
+    'extract:host-parameter-becomes-dummy-argument': ('extract', {}, """module kmod
+  implicit none
+contains
+  subroutine kernel(n, y)
+    integer, intent(in) :: n
+    integer, intent(inout) :: y
+    integer, parameter :: lp0 = 3
+    call isub(y)
+  contains
+    subroutine isub(r)
+      integer, intent(inout) :: r
+      r = r + lp0
+    end subroutine isub
+  end subroutine kernel
+end module kmod
+"""),
+    'outline:array-extent-variable-not-passed': ('outline', {}, """module kmod
+  implicit none
+contains
+  subroutine kernel(n, zn, y)
+    integer, intent(in) :: n
+    real(kind=8), intent(inout) :: zn(n)
+    real(kind=8), intent(in) :: y
+!$loki outline
+    zn(1) = zn(3) + y
+!$loki end outline
+  end subroutine kernel
+end module kmod
+"""),
+    'transform_file:keyword-arguments-to-external-procedure': ('trafo_file', {'extract_internals': True}, """subroutine kernel(n, y)
+  implicit none
+  integer, intent(in) :: n
+  integer, intent(inout) :: y
+  call isub(y)
+contains
+  subroutine isub(r)
+    integer, intent(inout) :: r
+    r = r + n
+  end subroutine isub
+end subroutine kernel
+"""),
+    'transform_file:extracted-function-undeclared-in-caller': ('trafo_file', {'extract_internals': True}, """subroutine kernel(n, y)
+  implicit none
+  integer, intent(in) :: n
+  integer, intent(inout) :: y
+  y = y + ifun(2)
+contains
+  function ifun(k)
+    integer, intent(in) :: k
+    integer :: ifun
+    ifun = k + 1
+  end function ifun
+end subroutine kernel
+"""),
+}
+_present = {}
+
+
+def defect_present(name):
+    """compile-only probe of one listed root cause against the tree under test (memoised per process)"""
+    if name not in _present:
+        from ..fprog import harness
+        ep, opts, text = PROBES[name]
+        try:
+            sf = _parse(text)
+            _transform(sf, ep, opts)
+            res = harness.native().build_run('probe', [('kmod.f90', sf.to_fortran() + '\n')], None, run=False)
+            _present[name] = res.stage.startswith('compile')
+        except Exception:  # noqa: loki raises on the probe program = the defect is present
+            _present[name] = True
+    return _present[name]
+
+
+def exclusions(spec):
+    """(spec with the triggers of the root causes that are present switched off, [reasons])"""
+    app = GEN.what_applies(spec)
+    fl, opts, why = dict(spec['flags']), dict(spec.get('opts', {})), []
+    if spec['ep'] == 'trafo_file' and app['extract'] and (
+            defect_present('transform_file:keyword-arguments-to-external-procedure')
+            or defect_present('transform_file:extracted-function-undeclared-in-caller')):
+        opts['extract_internals'] = False
+        why.append('transform_file(extract_internals): extracted procedures get no explicit interface')
+        app = dict(app, extract=False)
+    if app['extract']:
+        if fl.get('int_host_multiref') and defect_present('extract:host-array-referenced-in-several-forms'):
+            fl['int_host_multiref'] = False
+            why.append('extract: host array referenced in several forms -> duplicate dummy argument')
+        if fl.get('int_host_param') and defect_present('extract:host-parameter-becomes-dummy-argument'):
+            fl['int_host_param'] = False
+            why.append('extract: host PARAMETER becomes a dummy argument')
+        if fl.get('int_host_dtype') and not fl.get('routine_use') and spec['ep'] != 'trafo_file' \
+                and defect_present('extract:derived-type-imported-by-enclosing-module'):
+            fl['routine_use'] = True
+            why.append('extract: derived type of a host variable imported by the enclosing module -> KeyError')
+    if app['outline']:
+        if fl.get('reg_dimvar') and fl.get('reg_dimvar_implicit') and defect_present('outline:array-extent-variable-not-passed'):
+            fl['reg_dimvar_implicit'] = False
+            why.append('outline: extent variable of a region array not used in the region -> not passed')
+    if not why:
+        return spec, []
+    return dict(spec, flags=fl, opts=opts), why
+
+
+def diagnose(spec):
+    """the listed root causes that the IR of this case shows, in ROOT_CAUSES order (pure function of spec and tree)"""
+    from ..fprog import harness
+    from loki import Subroutine, Module
+    from loki.ir import FindNodes, CallStatement, FindVariables, FindInlineCalls
+    from loki.types import DerivedType
+    from loki.expression import symbols as sym
+    case = GEN.build(spec)
+    rendered = harness.render_case(case)
+    sf = _parse(rendered[0]['text'])
+    app = GEN.what_applies(spec)
+    found = set()
+
+    def routines_of(src):
+        out = []
+        for u in src.ir.body:
+            if isinstance(u, Module):
+                out += [(r, u) for r in u.subroutines]
+            elif isinstance(u, Subroutine):
+                out.append((u, None))
+        return out
+
+    old_names = {r.name.lower() for r, _ in routines_of(sf)}
+    if app['extract']:
+        for r, _ in routines_of(sf):
+            imported = {s.name.lower() for i in r.imports for s in i.symbols}
+            for inner in r.subroutines:
+                for v in list(FindVariables().visit(inner.body)) + list(FindVariables().visit(inner.spec)):
+                    root = v.parents[0] if getattr(v, 'parent', None) else v
+                    dt = getattr(root.type, 'dtype', None)
+                    if isinstance(dt, DerivedType) and dt.name.lower() not in imported:
+                        found.add('extract:derived-type-imported-by-enclosing-module')
+    try:
+        _transform(sf, spec['ep'], spec.get('opts', {}))
+    except Exception:  # noqa
+        return [c for c in ROOT_CAUSES if c in found]
+    file_level = {r.name.lower(): r for r, m in routines_of(sf) if m is None}
+    for r, mod in routines_of(sf):
+        names = [a.name.lower() for a in r.arguments]
+        if len(set(names)) < len(names):
+            found.add('extract:host-array-referenced-in-several-forms')
+        if any(getattr(a.type, 'parameter', None) for a in r.arguments):
+            found.add('extract:host-parameter-becomes-dummy-argument')
+        if r.name.lower() not in old_names and app['outline']:
+            visible = {v.name.lower() for v in r.variables} | {s.name.lower() for s in r.all_imported_symbols}
+            if mod is not None:
+                visible |= {v.name.lower() for v in mod.variables}
+            for v in r.variables:
+                if isinstance(v, sym.Array):
+                    for s in FindVariables().visit(v.dimensions):
+                        if s.name.lower() not in visible and not getattr(s, 'parent', None):
+                            found.add('outline:array-extent-variable-not-passed')
+        if spec['ep'] == 'trafo_file' and app['extract'] and r.name.lower() in old_names:
+            declared = {v.name.lower() for v in r.variables}
+            for c in FindNodes(CallStatement).visit(r.body):
+                if str(c.name).lower() in file_level and c.kwarguments:
+                    found.add('transform_file:keyword-arguments-to-external-procedure')
+            for c in FindInlineCalls().visit(r.body):
+                nm = str(c.function.name).lower()
+                if nm in file_level and nm not in old_names and nm not in declared:
+                    found.add('transform_file:extracted-function-undeclared-in-caller')
+    return [c for c in ROOT_CAUSES if c in found]
+
+
+def _innermost(exc):
+    while getattr(exc, '__cause__', None) is not None:
+        exc = exc.__cause__
+    return exc
+
+
+class Check(GI.XCheck):
+    def compare(self, case, origs, cands):
+        bad = super().compare(case, origs, cands)
+        if bad is not None and bad[0].startswith('candidate-does-not-compile'):
+            # the compiler's wording goes to the detail, not into the class / signature
+            return 'candidate-does-not-compile', bad[0].split(':', 1)[-1] + '\n' + bad[1]
+        return bad
+
+    def compile_only(self, spec):
+        text, cls = super().compile_only(spec)
+        return text, ('candidate-does-not-compile' if cls else None)
+
+    def evaluate(self, spec, known_text=None):
+        out = super().evaluate(spec, known_text=known_text)
+        if out['status'] == 'reject':
+            exc = _innermost(out['exc'])
+            if not (isinstance(exc, RuntimeError) and 'undefined' in str(exc)):
+                # a crash on a valid program (the statement promises transformed code), not a documented refusal
+                out.update(status='fail', coarse='loki-raises:' + type(exc).__name__, detail=out['detail'])
+        if out['status'] == 'fail':
+            out['detail'] = 'flags on: %s; opts: %s\n%s' % ('+'.join(GI.on_flags(spec)) or 'none',
+                                                           json.dumps(spec.get('opts', {}), sort_keys=True), out['detail'])
+        return out
+
+    def signature(self, spec, coarse):
+        compile_class = coarse.startswith('candidate-does-not-compile')
+        for cause in diagnose(spec):
+            crash = cause == 'extract:derived-type-imported-by-enclosing-module'
+            if (crash and coarse == 'loki-raises:KeyError') or (not crash and compile_class):
+                return f'{self.pid}:{cause}'
+        app = GEN.what_applies(spec)
+        kind = '+'.join(k for k in ('outline', 'extract') if app[k]) or 'nothing-applies'
+        if spec['ep'] == 'trafo_file':
+            kind += '@file'
+        return f'{self.pid}:{kind}:{coarse}'
+
+    def check_case(self, seedspec, ctx):
+        spec, reasons = exclusions(seedspec)
+        for why in reasons:
+            ctx.exclude(why)
+        if ctx.out_of_time():
+            return
+        self.check_spec(spec, ctx)
+
+
+X = Check(ID, GEN, apply_ep, executes, EP_OPTS, OPT_BASELINE, [])
 evaluate, reduce_failure, signature = X.evaluate, X.reduce_failure, X.signature
 
 
 def run_shard(ctx):
+    for name in ROOT_CAUSES:
+        ctx.extra['defect-present:' + name] = int(defect_present(name))
     ctx.given(GEN.specs(), X.check_case, ctx.scale(96, 3200), shrink=False)
 
 
